@@ -396,6 +396,12 @@ def get_vxc_nldf_full_response(
         (2, num_nldf, grids.weights.size), dtype=np.float64, order="C"
     )
 
+    if not hasattr(ni.nldfgen.interpolator, "grid_loc_atom"):
+        # e.g. interpolator_type="train_gen": no per-atom grid layout
+        raise NotImplementedError(
+            "Grid response of NLDF forces requires an onsite_direct or "
+            "onsite_spline interpolator"
+        )
     ga_loc = ni.nldfgen.interpolator.grid_loc_atom
     assert ga_loc is not None
     rho_full = np.zeros((2, nrho, ga_loc[-1]), dtype=np.float64, order="C")
